@@ -1,3 +1,4 @@
 pub mod engine;
 pub mod gen;
+pub mod model;
 pub mod props;
